@@ -21,8 +21,6 @@
 (***************************************************************************)
 EXTENDS FP, Json, IOUtils
 
-Trace == ndJsonDeserialize(IOEnv.TRACE_FILE)
-
 Inner(e) == FpSem(e.iop, e.irm, e.ia, e.ib, e.eb, e.sb, e.eb, e.sb, 0)
 OpA(e) == IF e.iop # "" /\ e.ipos = 1 THEN Inner(e) ELSE e.a
 OpB(e) == IF e.iop # "" /\ e.ipos = 2 THEN Inner(e) ELSE e.b
@@ -38,6 +36,8 @@ Failing(e) ==
           [] c = "solved" -> e.sv = 1 /\ e.sout = "ok" /\ ~ok(e.solved)
           [] c = "z3-specified" -> e.zs \in {0, 1} /\ ((e.zs = 1) # (ref # Unspec)) }
 
-ASSUME \A i \in 1..Len(Trace) : \A c \in Failing(Trace[i]) : PrintT(<<"BAD", i, c>>)
-ASSUME PrintT(<<"DONE", Len(Trace)>>)
+\* Trace is bound inside the ASSUME: a top-level definition would be re-parsed at every reference Trace[i]
+ASSUME LET Trace == ndJsonDeserialize(IOEnv.TRACE_FILE) IN
+         /\ \A i \in 1..Len(Trace) : \A c \in Failing(Trace[i]) : PrintT(<<"BAD", i, c>>)
+         /\ PrintT(<<"DONE", Len(Trace)>>)
 =============================================================================
